@@ -1087,17 +1087,32 @@ def r3_same_path(ctx, rid):
     f = inlined(ctx, f0, keep=("_relabel_var", "_get_var_idx", "get_nodes"))
     rd = ctx.rd(f)
     rets = [n for n in walk_shallow(f.node) if isinstance(n, ast.Return)]
-    ctx.require(len(rets) == 1 and isinstance(rets[0].value, ast.Tuple) and len(rets[0].value.elts) == 2
-                and all(isinstance(e, ast.Name) for e in rets[0].value.elts),
-                f"{rid}: get_variable_positions no longer returns (index map, backend-variable map) as two names")
+    ctx.require(rets and all(isinstance(r.value, ast.Tuple) and len(r.value.elts) == 2 and all(isinstance(e, ast.Name) for e in r.value.elts)
+                             for r in rets) and len({tuple(e.id for e in r.value.elts) for r in rets}) == 1,
+                f"{rid}: get_variable_positions no longer returns (index map, backend-variable map) as the same two names everywhere")
     idx_map, var_map = (e.id for e in rets[0].value.elts)
+    for nm in (idx_map, var_map):
+        ds = {id(d) for r in rets for e in r.value.elts if e.id == nm for d in rd.defs_reaching(e)}
+        ctx.require(len(ds) == 1, f"{rid}: `{nm}` is bound more than once in get_variable_positions (unrecognised form)")
     def empty_dict(v):
         return (isinstance(v, ast.Dict) and not v.keys) or (isinstance(v, ast.Call) and call_name(v) == "dict" and not v.args and not v.keywords)
 
     def stores(st):
         """[(subscript target, value)] of an assignment statement (chained targets share the value)."""
         if isinstance(st, ast.Assign):
-            return [(t, st.value) for t in st.targets if isinstance(t, ast.Subscript)]
+            out = []
+            for t in st.targets:
+                if isinstance(t, ast.Subscript):
+                    out.append((t, st.value))
+                elif isinstance(t, (ast.Tuple, ast.List)) and any(isinstance(x, ast.Subscript) for x in t.elts):
+                    # `a[k], b[k] = x, y` / `= pair_call(...)`
+                    v = resolve_local(ctx, f, st.value) if isinstance(st.value, ast.Name) else st.value
+                    if isinstance(v, (ast.Tuple, ast.List)) and len(v.elts) == len(t.elts) \
+                            and not any(isinstance(x, ast.Starred) for x in list(v.elts) + list(t.elts)):
+                        out += [(x, y) for x, y in zip(t.elts, v.elts) if isinstance(x, ast.Subscript)]
+                    else:
+                        raise AnalysisError(f"{rid}: `{norm(st)}` stores the parts of a value that is not a literal pair (unrecognised form)")
+            return out
         return []
 
     # sub-maps: `<index map>[k] = <local>` where the local is a fresh dict (`m = {}` / `<index map>[k] = m = {}`); stores into the
@@ -1144,13 +1159,13 @@ def r3_same_path(ctx, rid):
                 else:
                     raise AnalysisError(f"{rid}: `{norm(st)}` writes the index map with something else than _get_var_idx(...) (unrecognised form)")
             elif root == var_map:
-                var_stores.append((st, keys))
+                var_stores.append((st, keys, v))
     ctx.require(entries, f"{rid}: no `{idx_map}[...] = self._get_var_idx(...)` entry found")
     used = set()
     seen: Dict[str, int] = {}
     for st, keys, call in entries:
         blk = block_of(st)
-        partners = [(vs, vk) for vs, vk in var_stores if block_of(vs) is blk]
+        partners = [(vs, vk, vv) for vs, vk, vv in var_stores if block_of(vs) is blk]
         txt = norm(st)
         seen[txt] = seen.get(txt, 0) + 1
         tag = txt + (f" #{seen[txt]}" if seen[txt] > 1 else "")
@@ -1160,10 +1175,10 @@ def r3_same_path(ctx, rid):
             continue
         if len(partners) > 1:
             raise AnalysisError(f"{rid}: several stores into `{var_map}` next to `{txt}` (unrecognised form)")
-        vs, vkeys = partners[0]
+        vs, vkeys, vvalue = partners[0]
         used.add(id(vs))
         A = call.args[0] if call.args else call.keywords[0].value
-        B = resolve_local(ctx, f, vs.value)
+        B = resolve_local(ctx, f, vvalue)
         if not (isinstance(B, ast.Call) and call_name(B) == "_relabel_var" and len(B.args) + len(B.keywords) == 2):
             raise AnalysisError(f"{rid}: `{norm(vs)}`: the backend key is not a `_relabel_var(path, map)` result (unrecognised form)")
         bargs = list(B.args) + [k.value for k in sorted(B.keywords, key=lambda k: 0 if k.arg == "var" else 1)]
@@ -1198,16 +1213,27 @@ def r3_same_path(ctx, rid):
         # the path expression: an f-string `<node>/<op>/<var>` written in place, or an element of a list of such strings that was
         # built by one comprehension over the node list (`keys = [f"{t}/{op}/{var}" for t in nodes]`; `for k in keys` / `keys[0]`)
         js, elem_of, const_idx, key_list = Ar, None, None, None
+        pf = f          # the function in which the path template, its holes and the node list live
         if not isinstance(Ar, ast.JoinedStr):
             src = None
             if isinstance(Ar, ast.Name):
                 bl = binding_loop(ctx, f, Ar)
-                if bl is not None and isinstance(bl[0], ast.Name) and isinstance(bl[1], ast.Name):
+                if bl is not None and isinstance(bl[0], ast.Name) and isinstance(bl[1], (ast.Name, ast.Call)):
                     src = bl[1]
             elif isinstance(Ar, ast.Subscript) and isinstance(Ar.value, ast.Name) and isinstance(Ar.slice, ast.Constant) \
                     and isinstance(Ar.slice.value, int):
                 src, const_idx = Ar.value, Ar.slice.value
-            comp = resolve_local(ctx, f, src) if src is not None else None
+            comp = resolve_local(ctx, f, src) if isinstance(src, ast.Name) else src
+            if isinstance(comp, ast.Call):
+                # the key list is produced by a helper of the module that could not be spliced in (called in a loop header):
+                # continue in the helper, with the list it returns
+                ts, how = ctx.cg.resolve_call(f, comp)
+                ts = [t for t in ts if getattr(t.module, "rel", None) == f.module.rel]
+                if len(ts) == 1 and how != "external" and not str(how).startswith("unresolved"):
+                    hrets = [n for n in walk_shallow(ts[0].node) if isinstance(n, ast.Return) and n.value is not None]
+                    if len(hrets) == 1:
+                        pf = ts[0]
+                        comp = resolve_local(ctx, pf, hrets[0].value) if isinstance(hrets[0].value, ast.Name) else hrets[0].value
             if isinstance(comp, ast.ListComp) and len(comp.generators) == 1 and not comp.generators[0].ifs \
                     and isinstance(comp.generators[0].target, ast.Name) and isinstance(comp.generators[0].iter, ast.Name) \
                     and isinstance(comp.elt, ast.JoinedStr):
@@ -1235,9 +1261,9 @@ def r3_same_path(ctx, rid):
             if isinstance(nh, ast.Name) and comp_generator_of(nh) is elem_of:
                 T = elem_of.iter
                 if const_idx is not None:
-                    why = always_same_element([T, key_list], const_idx)
+                    why = always_same_element([T, key_list] if pf is f else [key_list], const_idx)
         elif isinstance(nh, ast.Name):
-            b = binding_loop(ctx, f, nh)
+            b = binding_loop(ctx, pf, nh)
             if b is not None and isinstance(b[0], ast.Name) and isinstance(b[1], ast.Name):
                 T = b[1]
         elif isinstance(nh, ast.Subscript) and isinstance(nh.value, ast.Name) and isinstance(nh.slice, ast.Constant):
@@ -1247,7 +1273,7 @@ def r3_same_path(ctx, rid):
             why = why or f"the node part `{norm(nh)}` of the path is not an element of the node list returned by get_nodes"
         gn = None
         if T is not None:
-            q = _node_query(ctx, f, T, rid)
+            q = _node_query(ctx, pf, T, rid)
             if q is None:
                 why = why or f"`{T.id}` is not the result of get_nodes"
             else:
@@ -1260,7 +1286,7 @@ def r3_same_path(ctx, rid):
         else:
             ctx.violation(rid, f0, st, f"the index is not computed for the node this entry is written for: {why}", {"template": tpl},
                           label=f"entry {tag}: path of the resolved node")
-    for vs, vk in var_stores:
+    for vs, vk, _ in var_stores:
         if id(vs) not in used:
             ctx.violation(rid, f0, vs, f"a backend variable is stored in `{var_map}` without an index in `{idx_map}` in the same branch",
                           label=f"orphan {norm(vs)}")
